@@ -141,6 +141,39 @@ assert factors[-1] == momenta[1], factors[-1]
 assert lvl1_phi == Phi(p12) and lvl1_theta == Theta(p12), (lvl1_phi, lvl1_theta)
 defs_vec = {}
 
+# --- 4-body topology whose top node has TWO decaying children: each child's rest frame must be built
+# from its OWN flight direction with the same conventions as above (structural; aborts otherwise)
+from ampform.helicity.decay import determine_attached_final_state  # noqa: E402
+
+def _both_decay(t):
+    (top,) = [t.edges[e].ending_node_id for e in t.incoming_edge_ids]
+    kids = t.get_edge_ids_outgoing_from_node(top)
+    return all(t.edges[e].ending_node_id is not None for e in kids)
+
+
+top4 = next(t for t in create_isobar_topologies(4) if _both_decay(t))
+mom4 = create_four_momentum_symbols(top4)
+ang4 = compute_helicity_angles(mom4, top4)
+(top_node4,) = [top4.edges[e].ending_node_id for e in top4.incoming_edge_ids]
+two_resonance_frames = 0
+for sym4, expr4 in ang4.items():
+    if isinstance(expr4, Phi) and isinstance(expr4.args[0], ArrayMultiplication):
+        f4 = list(expr4.args[0].args)
+        leaf_ids = [i for i, m in mom4.items() if m == f4[-1]]
+        assert len(leaf_ids) == 1, f4[-1]
+        sub_ids = next(determine_attached_final_state(top4, e)
+                       for e in top4.get_edge_ids_outgoing_from_node(top_node4)
+                       if leaf_ids[0] in determine_attached_final_state(top4, e))
+        P4 = ArraySum(*[mom4[i] for i in sub_ids])
+        assert [type(x).__name__ for x in f4[:-1]] == kinds, (sym4, f4)
+        for got, want in zip(f4[:-1], factors[:-1]):
+            want_arg = want.args[0].xreplace({p12: P4})
+            assert got.args[0] == want_arg, (
+                f"two-resonance topology: frame of subsystem {sub_ids} uses {got.args[0]} where the "
+                f"cascade convention gives {want_arg}")
+        two_resonance_frames += 1
+assert two_resonance_frames == 2, two_resonance_frames
+
 # --- which angle feeds which D index: formulate_isobar_wigner_d on probe transitions -------------
 import reactions  # noqa: E402
 from ampform.helicity import formulate_isobar_wigner_d  # noqa: E402
